@@ -31,7 +31,7 @@ def explore(ctx, prog, runtime, budget, with_sup, cancel_points=False):
     I1, a1, pm = lt.explore_process_message(prog, runtime, budget)
     ctx.absorb(I1)
     S = lt.classes_of(pm)
-    I, a, res = lt.explore_lifecycle(prog, S, runtime, budget, with_sup, cancel_points=cancel_points)
+    I, a, res = lt.explore_lifecycle(prog, S, runtime, budget, with_sup, cancel_points=cancel_points, kill_reason=lt.kill_reason_of(pm))
     ctx.absorb(I)
     ctx.paths += len(pm) + len(res)
     ctx.extra.setdefault('explorations', []).append({'runtime': runtime, 'poll_budget': budget, 'supervisor': with_sup, 'process_message_paths': len(pm),
